@@ -71,6 +71,24 @@ def success_returns_by_value(fn, start_blocks, cut_edges=(), cut_blocks=()):
     return sorted(set(out))
 
 
+def loop_iterations_skipping(fn, call, also=()):
+    """For a call inside a `for` loop: can the innermost loop around it start its next iteration without having made the call (or
+    one of `also`)?  Returns the loop-head call, or None if the call is not in a loop / every iteration passes it."""
+    dom = A.dominators(fn)
+    after = A.reachable(fn, [call.target] if call.target is not None and call.target >= 0 else [])
+    heads = [x for x in A.calls(fn) if (re.search(r'Iterator>?::next$', x.generic) or re.search(r'Iterator>?::next$', x.resolved))
+             and x.bb in dom[call.bb] and x.bb in after]
+    if not heads:
+        return None
+    h = max(heads, key=lambda x: len(dom[x.bb]))
+    # only the body: start on the Some edge of next() (the None edge leaves the loop; an enclosing loop may come back to this
+    # head later, which is a new run of the loop and not a skipped iteration)
+    some = [t for (_, t) in A.call_outcome(fn, h, A.Uses(fn)).ok]
+    start = some or ([h.target] if h.target is not None and h.target >= 0 else A.succs(fn, h.bb))
+    R = A.reachable(fn, start, cut_blocks={call.bb, h.bb} | set(also))
+    return h if any(h.bb in A.succs(fn, b_) for b_ in R) else None
+
+
 def first_line(fn, bb):
     b = fn.bbs[bb]
     if b['s']:
